@@ -10,7 +10,7 @@
    Statements only. *)
 From Coq Require Import NArith List Bool.
 From LC Require Import Bits Types BitboardModel MoveModel ZobristModel PositionModel MakeModel GameModel
-  Spec.Rules Refine.Abs Refine.Board Refine.Make Refine.Wf Refine.MakeAbs Refine.SpecFits.
+  Spec.Rules Refine.Abs Refine.Board Refine.Make Refine.Wf Refine.MakeAbs Refine.SpecFits CounterWrap.
 Import ListNotations.
 Local Open Scope N_scope.
 
@@ -35,3 +35,11 @@ Theorem C02_makemove_text : forall K p s, makemove_str K p s = option_map (makem
 Proof. reflexivity. Qed.
 
 Print Assumptions C02_makemove_refines. Print Assumptions C02_every_legal_move. Print Assumptions C02_makenull_refines. Print Assumptions C02_makemove_text.
+
+(* the full-move number on the machine: the C++ std::size_t counter is the model's unbounded counter mod 2^64, and
+   makemove / makenull act on it as the wrapping machine increment / not at all — also at 2^64-1 (CounterWrap.v) *)
+Theorem C02_fullmove_machine_step : forall K p m, wrap64 (fullmove (makemove K p m)) = mach_inc (wrap64 (fullmove p)) (black_moves p).
+Proof. exact makemove_fullmove_wraps. Qed.
+Theorem C02_fullmove_machine_null : forall K p, wrap64 (fullmove (makenull K p)) = wrap64 (fullmove p).
+Proof. exact makenull_fullmove_wraps. Qed.
+Print Assumptions C02_fullmove_machine_step. Print Assumptions C02_fullmove_machine_null.
